@@ -372,3 +372,15 @@ Proof.
       rewrite nth_error_map, (pos_of_nth _ _ Hin). simpl. f_equal. now apply nth_error_nth.
   - eapply Permutation_NoDup; [apply Permutation_sym; exact Hperm | exact HN].
 Qed.
+
+(* a row's combined code is the null code exactly when one of its component codes is null *)
+Lemma code_ok_null_iff U row c : code_ok U row c -> (c = -1 <-> In (-1) row).
+Proof. intros [[H ->]|[H [H0 _]]]; split; intros; auto; try lia; tauto. Qed.
+
+Theorem multi_key_null_iff shape rows : shape <> [] -> Forall (row_ok shape) rows ->
+  Forall2 (fun row c => c = -1 <-> In (-1) row) rows
+          (fst (combine_factorizations rows (code_weights shape) (Z.to_nat (prod shape)))).
+Proof.
+  intros Hne Hr. destruct (combine_faithful shape rows Hne Hr) as [HF _]. cbv zeta in HF.
+  eapply Forall2_mono; [|exact HF]. intros a b. apply code_ok_null_iff.
+Qed.
